@@ -16,11 +16,11 @@ def run(res, pool, tier, seed):
     jobs = [dict(module="MC_Flat.tla", tag="flat", invariants=["Typed", "Symmetric", "Emit"], timeout=3600,
                  constants=dict(B=1, KA=set(FLAT), KB=set(FLAT), SEED=sd, NSHARD=6 if q else 1, NBORING=8 if q else 2)),
             dict(module="MC_FlatBody.tla", tag="flatbody", invariants=["Typed", "Emit"], timeout=3600,
-                 constants=dict(SA=2, OFF=0, GENK=set(), NGEN=1, S=2, BODIES=set(POLYH + POLYG), KF=set(FLAT), SEED=sd + 1, NSHARD=90 if q else 8, NXCHECK=1000)),
+                 constants=dict(NL2=4, SA=2, OFF=0, GENK=set(), NGEN=1, S=2, BODIES=set(POLYH + POLYG), KF=set(FLAT), SEED=sd + 1, NSHARD=90 if q else 8, NXCHECK=1000)),
             dict(module="MC_BodyBody.tla", tag="bodybody", invariants=["Typed", "Symmetric", "Emit"], timeout=7200, batch=40,
-                 constants=dict(SA=2, OFF=0, GENK=set(), NGEN=1, S=2, BODIES1=set(POLYH + POLYG), BODIES2=set(POLYH + POLYG), T=2, SEED=sd + 2, NSHARD=40 if q else 4))]
+                 constants=dict(NL2=4, SA=2, OFF=0, GENK=set(), NGEN=1, S=2, BODIES1=set(POLYH + POLYG), BODIES2=set(POLYH + POLYG), T=2, SEED=sd + 2, NSHARD=40 if q else 4))]
     jobs.append(dict(module="MC_BodyBody.tla", tag="nested", invariants=["Typed", "Symmetric", "Emit"], timeout=3600, batch=40,
-                     constants=dict(SA=6, OFF=2, GENK=set(), NGEN=1, S=2, BODIES1={"cube", "octa", "ppyr"}, BODIES2={"cube", "tet2", "sq", "triObl"},
+                     constants=dict(NL2=4, SA=6, OFF=2, GENK=set(), NGEN=1, S=2, BODIES1={"cube", "octa", "ppyr"}, BODIES2={"cube", "tet2", "sq", "triObl"},
                                     T=1, SEED=sd + 3, NSHARD=8 if q else 1)))
     engine.run_jobs(res, jobs, pool)
     import traces
